@@ -365,8 +365,10 @@ def run_find(root, backend, name):
     rc, out, recs = pr.run([])
     if rc != 0 or recs or 'regenerat' in out:
         return 'second build is not a no-op: %s' % out[-200:]
+    proj.tick()
     with open(os.path.join(pr.src, 'fd', name, 'b.in'), 'w') as f:
         f.write('b\n')
+    proj.tick()
     rc, out, recs = pr.run([])
     exp2 = os.path.join('found', 'fd', name, 'b.in')
     if rc != 0:
